@@ -24,3 +24,33 @@ package types
 //@   ensures[C13.event_contract_address_empty] (err == nil && receipt.ContractAddress == zero(type(common.Address))) ==> ev.Attributes[2].Value == ""
 //@   ensures[C13.event_contract_address_hex] (err == nil && receipt.ContractAddress != zero(type(common.Address))) ==> (ev.Attributes[2].Value == receipt.ContractAddress.Hex() && ev.Attributes[2].Value != "")
 //@   panics[C13.event_never_panics,C20.event_never_panics] never
+
+//@ import core "github.com/ethereum/go-ethereum/core"
+
+// tx_args.go — trusted summary of ToMessage (hexutil decoding yields non-negative numbers; every pointer field of the
+// message is set; the message is marked fake, i.e. not subject to the nonce / EOA checks).
+//@ func (args *TransactionArgs) ToMessage(globalGasCap uint64, baseFee *big.Int) (msg ethtypes.Message, err error)
+//@   assumed
+//@   modifies nothing
+//@   ensures err == nil ==> (msg.gasPrice != nil && msg.gasFeeCap != nil && msg.gasTipCap != nil && msg.amount != nil && bigval[msg.amount] >= 0 && bigval[msg.gasPrice] >= 0 && msg.isFake && (globalGasCap != 0 ==> msg.gasLimit <= globalGasCap))
+//@   panics only_if args == nil
+//@ func (args *TransactionArgs) GetFrom() common.Address
+//@   assumed
+//@   modifies nothing
+//@   panics only_if args == nil
+//@ func NewExecErrorWithReason(revertReason []byte) *RevertError
+//@   assumed
+//@   modifies nothing
+//@   ensures result != nil
+//@   panics never
+
+// utils.go — BinSearch: bisection between lo (known or assumed to fail) and hi; the result stays in (lo, hi]; whatever
+// happens to the state is what the calls of `executable` do.
+//@ func BinSearch(lo, hi uint64, executable func(uint64) (bool, *MsgEthereumTxResponse, error)) (res uint64, err error)
+//@   requires hi < pow2(63) && lo < pow2(63)
+//@   modifies effects(executable)
+//@   ensures[C08.estimate_in_range] err == nil ==> (res <= hi && (lo < hi ==> lo < res) && (lo >= hi ==> res == hi))
+//@   ensures err != nil ==> res == 0
+//@   panics any
+//@ loop 1
+//@   invariant old(lo) <= lo && hi <= old(hi) && (old(lo) < old(hi) ==> lo < hi) && (old(lo) >= old(hi) ==> (lo == old(lo) && hi == old(hi)))
